@@ -613,6 +613,79 @@ def node_load_column(ctx):
                K.eq_val(npf.f(o, c), np0.f(o, c)))
 
 
+# ---------------------------------------------------------------------------------------------
+# result columns <- internal result arrays: the name pairing used by every branch component without internals
+
+@unit("C01", "results/column_pairing", functions=[CTB + ":standard_branch_wo_internals_result_lookup"], engine="E5")
+def result_column_pairing(ctx):
+    """mdot_from / mdot_to / p_from / p_to / volume-flow / temperature columns are filled from the result arrays of
+    the same meaning (get_basic_branch_results: mf_from = m, mf_to = -m -- C09 units) -- evaluated for gas and liquid"""
+    ctx.assume("A6")
+    want_h = {"p_from_bar": "p_from", "p_to_bar": "p_to", "mdot_from_kg_per_s": "mf_from", "mdot_to_kg_per_s": "mf_to"}
+    want_t = {"t_from_k": "temp_from", "t_to_k": "temp_to", "t_outlet_k": "t_outlet"}
+    for gas in (False, True):
+        fluid = K.make_fluid(gas)
+        paths = T.run_paths(ctx, CTB + ":standard_branch_wo_internals_result_lookup", lambda: ([K.NetObj({"fluid": fluid})], {}))
+        ok = len(paths) == 1 and paths[0].exc is None and isinstance(paths[0].result, tuple) and len(paths[0].result) == 2
+        tag = "gas" if gas else "liquid"
+        ctx.decided("%s/returns-two-lists" % tag, "cover", ok, witness=str([str(p.exc) for p in paths]))
+        if not ok:
+            continue
+        hyd, ht = [dict(tuple(x) for x in lst) for lst in paths[0].result]
+        exp_h = dict(want_h)
+        exp_h.update({"normfactor_from": "normfactor_from", "normfactor_to": "normfactor_to", "vdot_norm_m3_per_s": "vf"} if gas
+                     else {"vdot_m3_per_s": "vf"})
+        ctx.decided("%s/hydraulic-columns" % tag, "schema", hyd == exp_h, witness="pairs %s, expected %s" % (hyd, exp_h))
+        ctx.decided("%s/thermal-columns" % tag, "schema", ht == want_t, witness="pairs %s, expected %s" % (ht, want_t))
+
+
+@unit("C01", "results/forwarding", functions=["pandapipes.pf.result_extraction:extract_branch_results_without_internals"], engine="E5")
+def result_forwarding(ctx):
+    """every branch component without internal nodes hands the standard column pairing, for ITS OWN table, to
+    extract_branch_results_without_internals (whose positional contract is proved in C06) -- recorded call, for gas and
+    liquid, with and without compression power; the mass-flow pairs may not be dropped, renamed or redirected"""
+    ctx.assume("A6")
+    from contracts.C06 import wo_classes, class_str
+    from pvc import classes as CL
+    std = {"p_from_bar": "p_from", "p_to_bar": "p_to", "mdot_from_kg_per_s": "mf_from", "mdot_to_kg_per_s": "mf_to"}
+    for cref in wo_classes() + [S.get_module("pandapipes.component_models.circulation_pump_mass_component").classes["CirculationPumpMass"]]:
+        tn = class_str(ctx, cref, "table_name")
+        m = CL.lookup_method(cref, "extract_results")
+        if m is None or not isinstance(tn, str):
+            ctx.decided("%s/method-found" % cref.name, "cover", False, witness="no extract_results / table name")
+            continue
+        for gas in (False, True):
+            calls = []
+
+            def c_extract(ev, args, kwargs):
+                calls.append(list(args))
+                raise E._Raise(E.ExcVal("StopHere"))
+            fluid = K.make_fluid(gas)
+            f_, t_ = z3.Int("f_blk"), z3.Int("t_blk")
+
+            def mk(_c=cref, _fluid=fluid):
+                net = K.NetObj({"fluid": _fluid, "_lookups": {"branch_from_to": {tn: (f_, t_)}},
+                                "_pit": {"branch": K.sym_pit("branch_pit", NB, NCB), "node": K.sym_pit("node_pit", NN, NCN)}})
+                return [_c, net, {"calc_compression_power": False}, {}, "hydraulics"], {}
+            try:
+                T.run_paths(ctx, m.key, mk, contracts={
+                    "pandapipes.pf.result_extraction:extract_branch_results_without_internals": c_extract})
+            except Unsupported as e:
+                ctx.undecided("%s/%s/subset" % (cref.name, "gas" if gas else "liquid"), "unsupported", str(e))
+                continue
+            tag = "%s/%s" % (cref.name, "gas" if gas else "liquid")
+            ctx.decided(tag + "/reaches-the-positional-writer", "cover", len(calls) >= 1, witness="not called")
+            for a in calls[:1]:
+                try:
+                    hyd = dict(tuple(x) for x in a[2])
+                except Exception:  # noqa
+                    hyd = None
+                ctx.decided(tag + "/standard-pairs-forwarded", "schema",
+                            hyd is not None and all(hyd.get(k) == v for k, v in std.items()),
+                            witness="hydraulic pairs handed over: %s" % (hyd,))
+                ctx.decided(tag + "/own-table", "schema", a[4] == tn, witness="table %r, expected %r" % (a[4], tn))
+
+
 @unit("C01", "bounded/mass_balance", functions=["pandapipes.pipeflow:pipeflow"], engine="bounded")
 def mass_balance_bounded(ctx):
     """property-level bounded stand-in (and the fallback replay of this property's refuted obligations): whole
